@@ -97,6 +97,9 @@ class HashMap:
         if not self.value_serializer:
             self.value_serializer = lambda src, dest: dest.store_cell(src)
         if len(self.map):
+            for key in self.map:  # keys given through map_ / .map have not passed set_int_key
+                if not isinstance(key, int) or key < 0 or key.bit_length() > self.size:
+                    raise DictError('Key sizes must be the same.')
             return serialize_dict(self.map, self.size, self.value_serializer).end_cell()
         else:
             return None
